@@ -43,7 +43,7 @@ static void scenario() {
             } catch (Thrown&) { r.threw = true; nthrown++; } catch (std::bad_alloc&) { r.threw = true; nthrown++; } catch (std::exception&) { r.threw = true; nthrown++; }
             rs.push_back(r); } });
     open_window_and_join(ids);
-    vf_liveness(0); g_arm = false;
+    g_arm = false;   /* liveness stays on: the sequential phase that follows must terminate too */
     size_t sz = v.size();
     if (!nthrown) {
         for (long i = 0; i < pre; i++) if (&v[i] != preaddr[i]) vf_fail("element %ld moved during growth", i);
